@@ -98,35 +98,45 @@ var c01LitCfgs = []xcfg{
 	{"iife-ws", api.TransformOptions{Format: api.FormatIIFE, MinifyWhitespace: true}},
 }
 
+// litFreshContexts: evaluate every code of a literal batch in its own V8 context (needed when outputs declare top-level
+// helper variables such as the `_a` cache of a lowered tagged template, which would otherwise survive in the shared
+// global object from one program to the next)
+var litFreshContexts = false
+
 // litBatch: a list of literal source texts evaluated as one array.
 func litProgram(items []string) string {
 	return "globalThis.__f = function(H) { return [\n" + strings.Join(items, ",\n") + "\n]; };"
 }
 
 func c01RunLitBatches(c *Check, pool *NodePool, name string, items []string, asciiCheck bool, perBatch int) {
+	runLitBatches(c, pool, name, items, asciiCheck, perBatch, c01LitCfgs)
+}
+
+// runLitBatches: literal expressions evaluated as one array per batch, input vs every configuration's output
+func runLitBatches(c *Check, pool *NodePool, name string, items []string, asciiCheck bool, perBatch int, cfgs []xcfg) {
 	nb := (len(items) + perBatch - 1) / perBatch
 	c.ForEach(uint64(nb), func(w int, bi uint64) {
 		lo, hi := int(bi)*perBatch, (int(bi)+1)*perBatch
 		if hi > len(items) {
 			hi = len(items)
 		}
-		c01LitOne(c, pool.Get(w), name, items[lo:hi], asciiCheck)
+		c01LitOne(c, pool.Get(w), name, items[lo:hi], asciiCheck, cfgs)
 	})
 	c.Sub("literals:"+name, uint64(len(items)))
 }
 
-func c01LitOne(c *Check, node *Node, name string, items []string, asciiCheck bool) {
+func c01LitOne(c *Check, node *Node, name string, items []string, asciiCheck bool, litCfgs []xcfg) {
 	prog := litProgram(items)
 	codes := []string{prog}
 	cfgs := []string{"input"}
-	for _, cfg := range c01LitCfgs {
+	for _, cfg := range litCfgs {
 		out, ok, errs := transformJS(prog, cfg.opts)
 		if !ok {
 			if len(items) > 1 {
 				// bisect to find the rejected literal(s)
 				mid := len(items) / 2
-				c01LitOne(c, node, name, items[:mid], asciiCheck)
-				c01LitOne(c, node, name, items[mid:], asciiCheck)
+				c01LitOne(c, node, name, items[:mid], asciiCheck, litCfgs)
+				c01LitOne(c, node, name, items[mid:], asciiCheck, litCfgs)
 				return
 			}
 			// is the single literal valid for V8?
@@ -142,8 +152,8 @@ func c01LitOne(c *Check, node *Node, name string, items []string, asciiCheck boo
 				if out[i] >= 0x80 {
 					if len(items) > 1 {
 						mid := len(items) / 2
-						c01LitOne(c, node, name, items[:mid], asciiCheck)
-						c01LitOne(c, node, name, items[mid:], asciiCheck)
+						c01LitOne(c, node, name, items[:mid], asciiCheck, litCfgs)
+						c01LitOne(c, node, name, items[mid:], asciiCheck, litCfgs)
 						return
 					}
 					c.Violation("non-ascii:"+items[0], map[string]interface{}{"kind": "non-ascii-byte-in-ascii-output", "literal": items[0], "config": cfg.name, "output": out})
@@ -155,12 +165,12 @@ func c01LitOne(c *Check, node *Node, name string, items []string, asciiCheck boo
 		cfgs = append(cfgs, cfg.name)
 	}
 	c.Eval(uint64(len(items)))
-	res := nodeRun(node, []runCase{{Codes: codes, Calls: []interface{}{[]interface{}{}}, Fresh: false}})[0]
+	res := nodeRun(node, []runCase{{Codes: codes, Calls: []interface{}{[]interface{}{}}, Fresh: litFreshContexts}})[0]
 	if strings.HasPrefix(res[0], "eval-throw") {
 		if len(items) > 1 {
 			mid := len(items) / 2
-			c01LitOne(c, node, name, items[:mid], asciiCheck)
-			c01LitOne(c, node, name, items[mid:], asciiCheck)
+			c01LitOne(c, node, name, items[:mid], asciiCheck, litCfgs)
+			c01LitOne(c, node, name, items[mid:], asciiCheck, litCfgs)
 			return
 		}
 		c.Sub("generator_invalid_literal", 1)
@@ -171,8 +181,8 @@ func c01LitOne(c *Check, node *Node, name string, items []string, asciiCheck boo
 		if res[k] != res[0] {
 			if len(items) > 1 {
 				mid := len(items) / 2
-				c01LitOne(c, node, name, items[:mid], asciiCheck)
-				c01LitOne(c, node, name, items[mid:], asciiCheck)
+				c01LitOne(c, node, name, items[:mid], asciiCheck, litCfgs)
+				c01LitOne(c, node, name, items[mid:], asciiCheck, litCfgs)
 				return
 			}
 			c.Violation("lit:"+cfgs[k]+":"+items[0], map[string]interface{}{"kind": "literal-value-differs", "class": name, "literal": items[0], "config": cfgs[k], "output": codes[k], "expected": res[0], "observed": res[k]})
